@@ -18,7 +18,8 @@ Allowed rewrites (each is logged per function and reported in the evidence):
      parameter `Tracked(verif_log): Tracked<&mut OutLog>` on the function (ghost log: which literal K,
      which values, in which order; erased at compile time)
   R3 format!(..) -> verif_io::opaque_string()
-  R4 std::io::stdin().read_line(&mut s) -> verif_io::read_line(&mut s)
+  R4 std::io::stdin().read_line(&mut s) -> verif_io::read_line(Tracked(verif_in), &mut s) and an extra ghost
+     parameter `Tracked(verif_in): Tracked<&mut InLog>`: the pending input lines are universally quantified
   R5 #[derive], #[inline], doc comments, #[test] items dropped
   R6 `for _ in <range>` -> `for _ in verif_it: <range>` (names Verus' ghost loop iterator; no executable effect)
 Anything else in a body that Verus rejects means the function is OUT OF REACH (exit 2), never "proved".
@@ -164,6 +165,11 @@ class Extractor:
             inner = sig[sig.index("(") + 1:k].strip()
             sep = "" if not inner or inner.endswith(",") else ", "
             sig = sig[:k] + sep + "Tracked(verif_log): Tracked<&mut OutLog>" + sig[k:]
+        if "verif_io::read_line(" in body:
+            k = sig.rindex(")", 0, sig.index("->") if "->" in sig else len(sig))
+            inner = sig[sig.index("(") + 1:k].strip()
+            sep = "" if not inner or inner.endswith(",") else ", "
+            sig = sig[:k] + sep + "Tracked(verif_in): Tracked<&mut InLog>" + sig[k:]
         # Verus names the result in the signature: `-> (r: T)`
         m = re.search(r"->\s*([^{]+)$", sig)
         if m and "ensures" in contract:
@@ -189,6 +195,9 @@ class Extractor:
             lit = am.group(1) + ("\\n" if macro == "println" else "")
             k = lit_index(lit)
             rest = [x.strip() for x in split_top(am.group(2) or "")]
+            # a value bound by an `Err(x)` pattern (an error object) has no numeric rendering: logged as opaque
+            errs = set(re.findall(r"Err\((\w+)\)\s*=>", body))
+            rest = ["verif_io::opaque_u64()" if a in errs else a for a in rest]
             self.rewrites.append(f"{what}: R2 {macro}!({am.group(1)[:40]}..)")
             if len(rest) > 9:
                 raise Undecided(f"{what}: {macro}! with more than 9 arguments")
@@ -207,8 +216,8 @@ class Extractor:
             body = b3
             self.rewrites.append(f"{what}: R6 ghost iterator named")
         if "std::io::stdin().read_line(" in body:
-            body = body.replace("std::io::stdin().read_line(", "verif_io::read_line(")
-            self.rewrites.append(f"{what}: R4 stdin read_line")
+            body = body.replace("std::io::stdin().read_line(", "verif_io::read_line(Tracked(verif_in), ")
+            self.rewrites.append(f"{what}: R4 stdin read_line -> ghost input log")
         return body
 
     def _splice_loops(self, body: str, loops: Dict[int, str], what: str) -> str:
